@@ -1,5 +1,6 @@
 """C06 - MATLAB overload guards, default expansion and C++ marshalling line up (Engines E, I, F)."""
 from .. import rules_flow as RF
+from .. import rules_inst as RI
 from .. import rules_matlab as RM
 
 ID = "C06"
@@ -38,4 +39,6 @@ def run(ctx, rep):
     rep.run(RM.rule_copy_exactly_for_values, ctx, rep, "M11")
     rep.run(RM.rule_pair_element_by_position, ctx, rep, "M12")
     rep.run(RM.rule_enum_lookup_covers_scope, ctx, rep, "M13")
+    # M15: the defaults the arities are expanded from survive instantiation: every rebuilt Argument keeps name and default (= C04 B11, C02 S5)
+    rep.run(RI.rule_name_default_forwarding, ctx, rep, "M15")
     rep.run(RF.rule_locals_defined, ctx, rep, "U1", packages=("gtwrap/matlab_wrapper",), min_functions=3)
